@@ -386,6 +386,7 @@ instances! {
     c08_tracked_n3:  success<TrT, TrU, 3> unwind 5;
     c08_heap_n3:     success<HeapT, HeapU, 3> unwind 5;
     c08_zst_n3:      success<ZT, ZU, 3> unwind 5;
+    c08_zst_a8_n3:   success<ZA8T, ZA8U, 3> unwind 5;
     c08_big_n2:      success<BigT, BigU, 2> unwind 4;
     c08_over16_n3:   success<O16T, O16U, 3> unwind 5;
     c08_wrapper_n2:  success_wrapper<TrT, TrU, 2> unwind 4;
@@ -428,6 +429,8 @@ instances! {
     c10_zst_vs_byte_n3:        refuse<ZT, P8U, 3> unwind 5;
     c10_zst_vs_tracked_n3:     refuse<ZT, TrU, 3> unwind 5;
     c10_tracked_vs_zst_n3:     refuse<TrT, ZU, 3> unwind 5;
+    c10_zst_align_1_to_8_n3:   refuse<ZT, ZA8U, 3> unwind 5;
+    c10_zst_align_8_to_1_n3:   refuse<ZA8T, ZU, 3> unwind 5;
     c10_bytes4_vs_u32_n3:      refuse<B4T, P32U, 3> unwind 5;
     c10_heap_vs_over16_n3:     refuse<HeapT, O16U, 3> unwind 5;
     c10_rev_align_4_to_1_n3:   refuse<P32T, B4U, 3> unwind 5;
